@@ -22,7 +22,7 @@ pub const SPEC: FamilySpec = FamilySpec {
     runs_thorough: 600_000,
     rule: "one case = one execution of (a) an abort-profile scenario (2-6 streams, half of them aborted by one side after reading a random prefix, the others are bystanders) or (b) a cycle run: 2-4 bystander streams carrying data throughout while \
 20-400 streams are opened and closed one after another in every close order (graceful, abort by either side with data in flight, read-to-EOF-then-drop, shutdown-then-drop), flow tables probed at a quiescent point after every cycle and freed ids re-issued \
-through a scripted RNG. Oracle: peer of an abort reads everything delivered before the Reset and then EOF, its later writes fail with BrokenPipe, bystanders keep data and state, no flow-table entry without an owner, \
+through a scripted RNG. Oracle: peer of an abort reads everything delivered before the Reset and then EOF, its later writes fail with BrokenPipe, bystanders keep data and state, no flow-table entry without an owner, no owner (handle still held after a graceful end) without a flow-table entry, an id the peer still holds is refused and the retry succeeds, \
 re-opened ids behave like fresh ones (credit, data, open). Non-trivial = at least one abort or one id re-use happened",
 };
 
@@ -117,8 +117,42 @@ fn cycles_case(st: &mut Stats, seed: u64, n_cycles: u32) {
         }
         StreamPlan { sid, opener: (sid % 2) as u8, open_delay: 0, sides, awaited: [true, true], host_extra: vec![], port: sid as u16 }
     }).collect();
-    let cycle_plans: Vec<StreamPlan> = (0..n_cycles).map(|c| cycle_plan(&mut rng, 100 + c, &cfg)).collect();
+    let mut cycle_plans: Vec<StreamPlan> = (0..n_cycles).map(|c| cycle_plan(&mut rng, 100 + c, &cfg)).collect();
     let reuse_flags: Vec<bool> = (0..n_cycles).map(|_| rng.chance(1, 2)).collect();
+    // "held" pairs: cycle c ends gracefully but its opener keeps the handle for a while; the other end, for which the id
+    // is free again once it dropped its own handle, then picks that very id for cycle c+1 (scripted RNG)
+    let mut held_flags = vec![false; n_cycles as usize];
+    let mut c = 0usize;
+    while c + 1 < n_cycles as usize {
+        if rng.chance(1, 6) {
+            held_flags[c] = true;
+            let opener = cycle_plans[c].opener;
+            for e in 0..2 {
+                let sp = &mut cycle_plans[c].sides[e];
+                sp.shutdown = true;
+                sp.read_limit = None;
+                sp.retry_after_broken = false;
+                sp.hold_ms = 0;
+            }
+            cycle_plans[c].sides[opener as usize].hold_ms = 6;
+            let next = &mut cycle_plans[c + 1];
+            next.opener = 1 - opener;
+            for e in 0..2 {
+                let sp = &mut next.sides[e];
+                sp.shutdown = true;
+                sp.read_limit = None;
+                sp.retry_after_broken = false;
+                sp.hold_ms = 0;
+                // the new stream is alive while the old handle is dropped
+                let mid = sp.writes.len() / 2;
+                sp.writes.insert(mid, WOp::Sleep(8));
+                sp.writes.push(WOp::Write(5));
+            }
+            c += 2;
+        } else {
+            c += 1;
+        }
+    }
     let cfg2 = cfg.clone();
     let end = sim::run(&sh, move |sh| async move {
         let ([e0, e1], _net) = wl::connect(&sh, [&cfg2[0], &cfg2[1]], caps, [None, None], seed, true);
@@ -136,9 +170,17 @@ fn cycles_case(st: &mut Stats, seed: u64, n_cycles: u32) {
         let mut pending: HashMap<u32, tokio::task::JoinHandle<Option<()>>> = HashMap::new();
         let mut prev_id: Option<u32> = None;
         let mut reuses = 0u32;
+        let mut held_actor: Option<tokio::task::JoinHandle<Option<()>>> = None;
+        let mut held_checks: Vec<(u32, u32, bool)> = Vec::new();
+        let mut force_id: Option<u32> = None;
+        let mut held_skipped = 0u32;
         for (c, plan) in cycle_plans.iter().enumerate() {
             reg.lock().unwrap().insert(plan.sid, plan.clone());
-            if let (true, Some(id)) = (reuse_flags[c], prev_id) {
+            if let Some(id) = force_id.take() {
+                // the peer still holds a stream with this id; the Connect must be refused and retried with a fresh id
+                rngs[plan.opener as usize].push(&[id]);
+                reuses += 1;
+            } else if let (true, Some(id)) = (reuse_flags[c], prev_id) {
                 // the id was freed on both endpoints (quiescent point reached): hand it out again
                 rngs[plan.opener as usize].push(&[id]);
                 reuses += 1;
@@ -161,8 +203,33 @@ fn cycles_case(st: &mut Stats, seed: u64, n_cycles: u32) {
                             None => break,
                         }
                     }
+                    if held_flags[c] {
+                        // only the accepting side lets go; the opener keeps its handle (both directions have ended)
+                        if let Some(h) = pending.remove(&plan.sid) {
+                            h.await.ok();
+                        }
+                        sim::quiesce().await;
+                        let x = prev_id.expect("id");
+                        let present = muxes[ep as usize].verif_flow_ids().contains(&x);
+                        // a Reset of this flow (e.g. the peer's answer to an Acknowledge that arrived after it had let go)
+                        // legitimately removes the entry although the handle is still held: no demand then, and no forced re-use
+                        let reset_seen = sh.lock().log.iter().rev().take_while(|r| !matches!(&r.ev, sim::Ev::Api { sid, op: Api::OpenCall, .. } if *sid == plan.sid))
+                            .any(|r| matches!(&r.ev, sim::Ev::Sent { m: sim::Wm::Reset { id }, .. } if *id == x));
+                        if reset_seen {
+                            held_skipped += 1;
+                        } else {
+                            held_checks.push((plan.sid, x, present || opener_actor.is_finished()));
+                            force_id = Some(x);
+                        }
+                        held_actor = Some(opener_actor);
+                        prev_id = None;
+                        continue;
+                    }
                     opener_actor.await.ok();
                     if let Some(h) = pending.remove(&plan.sid) {
+                        h.await.ok();
+                    }
+                    if let Some(h) = held_actor.take() {
                         h.await.ok();
                     }
                 }
@@ -177,6 +244,9 @@ fn cycles_case(st: &mut Stats, seed: u64, n_cycles: u32) {
                 let ids = muxes[e as usize].verif_flow_ids();
                 sh.api(e, 0, Api::Probe { flows: ids.len(), ids });
             }
+        }
+        if let Some(h) = held_actor.take() {
+            h.await.ok();
         }
         for h in by_handles {
             h.await.ok();
@@ -205,9 +275,14 @@ fn cycles_case(st: &mut Stats, seed: u64, n_cycles: u32) {
         t0.await.ok();
         drop(m1);
         t1.await.ok();
-        reuses
+        (reuses, held_checks, held_skipped)
     });
     let log = sh.take_log();
+    if std::env::var("C06_DUMP").is_ok() {
+        for l in sim::render(&log, log.len()) {
+            eprintln!("{l}");
+        }
+    }
     let meta = Meta { abnormal_end: false, dgram_cap: [16, 16], stream_is_bridge: false, sim: true, ..Meta::default() };
     let an = monitors::analyse(&log, SPEC.fams, &meta);
     for (k, v) in &an.counters.c {
@@ -218,7 +293,14 @@ fn cycles_case(st: &mut Stats, seed: u64, n_cycles: u32) {
     let mk = |extra: String, at: usize| json!({"kind": "c06-cycles", "run_seed": seed, "cycles": n_cycles, "cfg": [cfg[0].short(), cfg[1].short()], "note": extra,
         "trace": sim::render(&log[at.saturating_sub(70)..at.min(log.len())], 70)});
     match end {
-        sim::RunEnd::Finished(reuses) => {
+        sim::RunEnd::Finished((reuses, held_checks, held_skipped)) => {
+            st.target("held_handle_probes", held_checks.len() as u64);
+            st.count("held_handle_probes_skipped_after_reset", u64::from(held_skipped));
+            for (sid, x, present) in &held_checks {
+                if !present {
+                    st.violation(Violation { signature: "id-released-while-stream-held|cycles".into(), detail: format!("stream s{sid} (flow id {x:x}) had ended gracefully in both directions and the application still held its handle, but the id was no longer in the endpoint's flow table at the quiescent point: the id can be handed to a new stream that the old handle's drop will then reset"), replay: mk(format!("held s{sid}"), log.iter().rposition(|r| matches!(&r.ev, sim::Ev::Api { sid: s2, .. } if s2 == sid)).map_or(log.len(), |i| i + 25)) });
+                }
+            }
             st.target("id_reuses", u64::from(reuses));
             st.target("aborts", an.counters.get("aborts"));
             st.target("leak_probes", an.counters.get("leak_probes"));
@@ -247,6 +329,11 @@ pub fn run(p: &Params) -> (Stats, &'static str) {
     std::panic::set_hook(Box::new(|_| {}));
     sim::install_observer();
     let mut st = Stats::new();
+    if let Some(rs) = p.get("run-seed").and_then(|x| x.parse::<u64>().ok()) {
+        // re-execute one cycle run (C06_DUMP=1 prints its whole event log)
+        cycles_case(&mut st, rs, p.get("cycles").and_then(|x| x.parse().ok()).unwrap_or(20));
+        return (st, SPEC.rule);
+    }
     let base = p.shard_seed("C06");
     let n = p.share(if p.tier_thorough { SPEC.runs_thorough } else { SPEC.runs_quick });
     for i in 0..n {
